@@ -141,14 +141,19 @@ class Conn:
 
     def read_response(self, method=b"GET"):
         r = Response()
-        self.buf, ok = recv_until(self.s, self.buf, b"\r\n\r\n")
-        if not ok:
-            raise ParseError("eof before response head (got %r)" % self.buf[:80])
-        head, self.buf = self.buf.split(b"\r\n\r\n", 1)
-        r.raw_head = head
-        start, r.headers = parse_head(head)
-        parts = start.split(b" ", 2)
-        r.status = int(parts[1])
+        while True:
+            self.buf, ok = recv_until(self.s, self.buf, b"\r\n\r\n")
+            if not ok:
+                raise ParseError("eof before response head (got %r)" % self.buf[:80])
+            head, self.buf = self.buf.split(b"\r\n\r\n", 1)
+            r.raw_head = head
+            start, r.headers = parse_head(head)
+            parts = start.split(b" ", 2)
+            r.status = int(parts[1])
+            if 100 <= r.status < 200 and r.status != 101:
+                self.interim = getattr(self, "interim", 0) + 1     # interim response (100 Continue): the final one follows
+                continue
+            break
         r.reason = parts[2] if len(parts) > 2 else b""
         r.body, self.buf, r.framing, r.chunks = read_body(self.s, self.buf, r.headers, True, method, r.status)
         r.t_done = time.monotonic_ns()
